@@ -316,6 +316,8 @@ class GradOracle(Observer):
                 continue
             g = w.read_grad(t, k)
             i = w.info[k]
+            if i.stale and t.base is not None:
+                continue  # a view left over from a cleared family reads its old base's gradient
             role = "view" if (k in rec["pre_ids"]) else "owner"
             if e[0] == "none":
                 if g is not None:
@@ -1578,3 +1580,63 @@ class SaveLoadOracle(Observer):
             w.probe("c18.roundtrip_checked")
             if sg is not None:
                 w.probe("c18.roundtrip_with_grad")
+
+
+# ======================================================================================
+# C17 - construction / conversion: copying, aliasing (the clauses about later behaviour)
+# ======================================================================================
+class AliasOracle(Observer):
+    """aliasing model confirmed by actual later writes: after the caller changes one of its arrays
+    every tensor shows the new values iff the model says it shares that memory; conversion results
+    are (or are not) the same object / memory as the statement says."""
+
+    def after(self, w, ev, out):
+        k = ev["k"]
+        if out.status != "ok":
+            return
+        lc = w.last_conv
+        if k == "wrap" and lc is not None and lc.get("out") == ev["out"]:
+            w.last_conv = None
+            if lc["expect_shares"] and not lc["shares"]:
+                if w.violation("C17", "C17.should_share", f"step {w.nstep}: {lc['how']} of an array of matching dtype did not reuse its memory", tag=f"C17.should_share/{lc['how']}"):
+                    return
+            if not lc["expect_shares"] and lc["shares"] and lc["how"] in ("tensor_copy", "Tensor"):
+                if w.violation("C17", "C17.should_copy", f"step {w.nstep}: {lc['how']} (copying by default) shares memory with its input", tag=f"C17.should_copy/{lc['how']}"):
+                    return
+            w.probe("c17.construction_checked")
+        if k == "conv" and lc is not None:
+            w.last_conv = None
+            how = lc["how"]
+            if how in ("astensor", "tensor_nocopy"):
+                should_be_same = lc["dtype_match"] and lc["const_match"]
+                if should_be_same and not lc["result_is_src"]:
+                    if w.violation("C17", "C17.astensor_identity", f"step {w.nstep}: {how}(t) with matching dtype/constant did not return t itself", tag=f"C17.astensor_identity/{how}"):
+                        return
+                if not should_be_same and lc["result_is_src"]:
+                    if w.violation("C17", "C17.astensor_identity", f"step {w.nstep}: {how}(t) returned t itself although dtype/constant differ", tag=f"C17.astensor_identity/{how}/spurious"):
+                        return
+            if how in ("copy", "astype", "tensor_copy") and ev.get("out") in w.T:
+                r = w.T[ev["out"]]
+                if how != "astype" or not lc["result_is_src"]:
+                    if r.creator is not None or r.base is not None:
+                        if w.violation("C17", "C17.detached", f"step {w.nstep}: the result of {how} is attached to a graph (creator/base set)", tag=f"C17.detached/{how}"):
+                            return
+                    if lc["shares"]:
+                        if w.violation("C17", "C17.detached_memory", f"step {w.nstep}: the result of {how} shares memory with its source", tag=f"C17.detached_memory/{how}"):
+                            return
+            if how == "asarray" and not lc.get("is_data", True) and lc["dtype_match"]:
+                if w.violation("C17", "C17.asarray_reuse", f"step {w.nstep}: asarray(t) did not return t's own array", tag="C17.asarray_reuse"):
+                    return
+            w.probe("c17.conversion_checked")
+        if k == "awrite":
+            # every tensor shows the write iff the model says it shares the memory
+            for h, t in w.T.items():
+                s = w.S.get(h)
+                if s is None or t.data.shape != s.shape:
+                    continue
+                if not np.array_equal(t.data, s, equal_nan=True):
+                    mb = w.info[h].made_by
+                    sees = "sees" if np.shares_memory(t.data, w.A[ev["a"]]) else "does_not_see"
+                    if w.violation("C17", "C17.later_write_visibility", f"step {w.nstep}: after the caller changed array {ev['a']}, tensor handle {h} (made by {mb}) {sees.replace('_', ' ')} the change, contrary to the aliasing rules", tag=f"C17.later_write_visibility/{sees}/made_by={mb}"):
+                        return
+            w.probe("c17.later_write_checked")
